@@ -75,6 +75,35 @@ func Selftest(args []string) int {
 		sort.Strings(patches)
 		for _, p := range patches {
 			total++
+			if plans[id].Gen {
+				// generator properties need the patched tree on disk (the plugin is built from it)
+				cp, err := os.MkdirTemp("", "gvcrepo")
+				if err == nil {
+					out, cerr := exec.Command("rsync", "-a", "--exclude", ".git", RepoDir+"/", cp+"/").CombinedOutput()
+					if cerr == nil {
+						out, cerr = exec.Command("patch", "-p1", "-s", "-f", "-d", cp, "-i", p).CombinedOutput()
+					}
+					if cerr != nil {
+						fmt.Printf("%-6s %-40s PATCH-ERROR %s\n", id, filepath.Base(p), out)
+						survivors = append(survivors, p)
+						os.RemoveAll(cp)
+						continue
+					}
+					save := RepoDir
+					RepoDir = cp
+					v, failed := runCheck(id, "quick", 0, nil, true)
+					RepoDir = save
+					os.RemoveAll(cp)
+					if v > 0 {
+						killed++
+						fmt.Printf("%-6s %-40s killed by %s\n", id, filepath.Base(p), strings.Join(firstN(failed, 2), " | "))
+					} else {
+						survivors = append(survivors, p)
+						fmt.Printf("%-6s %-40s SURVIVED\n", id, filepath.Base(p))
+					}
+					continue
+				}
+			}
 			ov, err := overlayFromPatch(p)
 			if err != nil {
 				fmt.Printf("%-6s %-40s PATCH-ERROR %v\n", id, filepath.Base(p), err)
